@@ -35,7 +35,7 @@ import (
 )
 
 type Op struct {
-	K string `json:"k"`           // reg connect connectfail disconnect exit killdate markdead markalive
+	K string `json:"k"`           // reg connect connectfail disconnect exit killdate markdead markalive reopen
 	A int    `json:"a"`           // acting agent: index into the universe
 	B int    `json:"b,omitempty"` // connect/disconnect: named agent (index), -1 = an id the teamserver has never seen
 	F bool   `json:"f,omitempty"` // disconnect only: the Demon reports Removed = FALSE
@@ -46,7 +46,18 @@ type Case struct {
 	IDs     []uint32 `json:"ids"`  // the universe
 	Init    []int    `json:"init"` // registered top-level before the history starts
 	Existed bool     `json:"existed,omitempty"`
+	DB      string   `json:"db,omitempty"` // "fresh" | "existed" | "golden" (copy of testdata/golden-schema.db); "" = Existed decides
 	Ops     []Op     `json:"ops"`
+}
+
+func (c Case) dbMode() string {
+	switch {
+	case c.DB != "":
+		return c.DB
+	case c.Existed:
+		return "existed"
+	}
+	return "fresh"
 }
 
 const unknownID = 0x0BADF00D
@@ -116,6 +127,30 @@ func (o obs) children(p int64) []int64 {
 
 // invariants evaluates the statement on the in-memory graph and TS_Links.  who maps an
 // agent id to its role in the last event (actor / named / other) for the signature.
+// reopenable: a restart is only generated when every stored link joins two active
+// sessions.  A row that names an inactive session (possible after a disconnect reported by
+// a non-parent, or a connect sent by a session marked dead) is not restored by Start();
+// what the property demands of such a dangling row after a restart is not fixed by the
+// statement, so those histories simply do not reopen.
+func reopenable(w *pvx.World) bool {
+	rows, err := pvx.LinkRows(w.SQL)
+	if err != nil {
+		return false
+	}
+	act := map[int64]bool{}
+	for _, a := range w.TS.Agents.Agents {
+		if a != nil && a.Active {
+			act[idNum(a)] = true
+		}
+	}
+	for _, r := range rows {
+		if !act[r.Parent] || !act[r.Child] {
+			return false
+		}
+	}
+	return true
+}
+
 func invariants(w *pvx.World, after string, role func(int64) string) (obs, *core.Violation) {
 	o := obs{parentOf: map[int64]int64{}, known: map[int64]bool{}}
 	ags := w.TS.Agents.Agents
@@ -289,12 +324,32 @@ func hasParent(o obs, x int64) bool { _, ok := o.parentOf[x]; return ok }
 
 const stepBudget = 20 * time.Second
 
+// checkCase runs the history on the kind of database file the case asks for.  When a
+// history fails on the golden (pre-existing) file, the schema of that file differs from
+// what the code under test creates today, and the same history holds on a fresh file,
+// the finding is named after the schema difference.
 func checkCase(c Case) *core.Violation {
+	v := runCase(c, c.dbMode())
+	if v == nil || c.dbMode() != "golden" || strings.HasPrefix(v.Sig, "harness|") {
+		return v
+	}
+	diff := pvx.SchemaDiff()
+	if len(diff) == 0 {
+		return v
+	}
+	if vf := core.Guard(func() *core.Violation { return runCase(c, "fresh") }); vf != nil {
+		return v // fails on a fresh file as well: not a matter of the existing file
+	}
+	return core.V("schema|existing-database-differs-from-fresh|"+strings.Join(diff, "+"),
+		"on a database file that existed before this teamserver opened it (schema of the unchanged tree, harness/testdata/golden-schema.sql) the history violates the property, on a freshly created file it does not; tables whose definition differs: %v.\n[%s] %s", diff, v.Sig, v.Msg)
+}
+
+func runCase(c Case, mode string) *core.Violation {
 	sweepOnce.Do(func() { pvx.SweepStale("c09") })
 	if len(c.IDs) == 0 {
 		return nil
 	}
-	w, err := pvx.NewWorld("c09", c.Existed)
+	w, _, err := pvx.NewWorldMode("c09", mode)
 	if err != nil {
 		panic("harness: " + err.Error())
 	}
@@ -336,6 +391,21 @@ func checkCase(c Case) *core.Violation {
 		}
 		actorID := c.IDs[op.A]
 		actor := w.Agent(actorID)
+		if op.K == "reopen" {
+			if !reopenable(w) {
+				continue
+			}
+			if err := w.Reopen(); err != nil {
+				return core.V("reopen|failed", "step %d: reopening the database file: %v", step, err)
+			}
+			post, v := invariants(w, "reopen", noRole)
+			if v != nil {
+				v.Msg = fmt.Sprintf("step %d (reopen): %s", step, v.Msg)
+				return v
+			}
+			pre = post
+			continue
+		}
 		if op.K != "reg" && actor == nil {
 			continue // an agent the teamserver does not know cannot deliver a callback; the operator cannot mark it
 		}
@@ -492,6 +562,7 @@ func guard(c Case) *core.Violation { return core.Guard(func() *core.Violation { 
 type model struct {
 	known  map[int]bool
 	parent map[int]int
+	active map[int]bool
 }
 
 func (m *model) anc(a, of int) bool {
@@ -520,23 +591,53 @@ type summary struct {
 	deathLinks                           int // max number of links an agent had when it died
 	deathWithParent                      bool
 	effective                            int
+	reopens                              int
+	eventsAfterReopen                    bool
 }
 
 func summarize(c Case) summary {
 	s := summary{classes: map[string]int{}, deathLinks: -1}
-	m := &model{known: map[int]bool{}, parent: map[int]int{}}
+	m := &model{known: map[int]bool{}, parent: map[int]int{}, active: map[int]bool{}}
 	for _, i := range c.Init {
 		if i >= 0 && i < len(c.IDs) {
 			m.known[i] = true
+			m.active[i] = true
 		}
 	}
 	for _, op := range c.Ops {
 		if op.A < 0 || op.A >= len(c.IDs) {
 			continue
 		}
+		if op.K == "reopen" {
+			ok := true
+			for ch, p := range m.parent {
+				if !m.active[ch] || !m.active[p] {
+					ok = false
+				}
+			}
+			if !ok {
+				continue
+			}
+			// only active sessions come back
+			for a := range m.known {
+				if !m.active[a] {
+					delete(m.known, a)
+					delete(m.parent, a)
+				}
+			}
+			for ch, p := range m.parent {
+				if !m.known[p] {
+					delete(m.parent, ch)
+				}
+			}
+			s.classes["reopen"]++
+			s.reopens++
+			continue
+		}
 		if op.K == "reg" {
 			if !m.known[op.A] {
 				m.known[op.A] = true
+				m.active[op.A] = true
 				s.classes["reg"]++
 				s.effective++
 			}
@@ -546,6 +647,9 @@ func summarize(c Case) summary {
 			continue
 		}
 		s.effective++
+		if s.reopens > 0 && (op.K == "connect" || op.K == "disconnect" || op.K == "exit" || op.K == "killdate" || op.K == "markdead") {
+			s.eventsAfterReopen = true
+		}
 		b := op.B
 		if op.K == "disconnect" && op.R {
 			var kids []int
@@ -574,6 +678,7 @@ func summarize(c Case) summary {
 			case !m.known[b]:
 				cl = "connect-new"
 				m.known[b] = true
+				m.active[b] = true
 				m.parent[b] = op.A
 			case m.anc(b, op.A):
 				cl = "connect-ancestor"
@@ -588,6 +693,7 @@ func summarize(c Case) summary {
 					cl = "connect-toplevel"
 				}
 				m.parent[b] = op.A
+				m.active[b] = true
 			}
 			if m.nlinks(op.A) >= 2 {
 				s.secondLink = true
@@ -605,6 +711,7 @@ func summarize(c Case) summary {
 				} else {
 					cl = "disconnect-nonchild"
 				}
+				m.active[b] = false // LinkRemove marks the named agent "Disconnected" either way
 			}
 		case "exit", "killdate", "markdead":
 			n := m.nlinks(op.A)
@@ -615,11 +722,15 @@ func summarize(c Case) summary {
 				s.deathWithParent = true
 			}
 			delete(m.parent, op.A)
+			m.active[op.A] = false
 			for ch, p := range m.parent {
 				if p == op.A {
 					delete(m.parent, ch)
+					m.active[ch] = false
 				}
 			}
+		case "markalive":
+			m.active[op.A] = true
 		}
 		s.classes[cl]++
 	}
@@ -644,7 +755,16 @@ func classify(c Case) core.Class {
 	case s.deathLinks >= 3:
 		dl = "3+"
 	}
-	cl.Labels = append(cl.Labels, "death-links:"+dl, fmt.Sprintf("agents:%d", len(c.IDs)))
+	cl.Labels = append(cl.Labels, "death-links:"+dl, fmt.Sprintf("agents:%d", len(c.IDs)), "db:"+c.dbMode())
+	if s.reopens > 0 {
+		cl.Labels = append(cl.Labels, "db:reopened")
+		if s.eventsAfterReopen {
+			cl.Labels = append(cl.Labels, "pivot-events-after-reopen")
+		}
+	}
+	if (c.dbMode() != "fresh" || s.reopens > 0) && s.reparent {
+		cl.Labels = append(cl.Labels, "re-parenting-on-existing-db")
+	}
 	if s.deathWithParent {
 		cl.Labels = append(cl.Labels, "death-of-a-child")
 	}
@@ -665,6 +785,6 @@ func classify(c Case) core.Class {
 	}
 	cl.Labels = append(cl.Labels, "effective-events:"+lb)
 	cl.NonTrivial = s.secondLink || s.reparent || s.selfc || s.ancc
-	cl.Fingerprint = fmt.Sprintf("2nd=%v|reparent=%v|self=%v|anc=%v|deathlinks=%s|childdeath=%v|len=%s|disc=%v", s.secondLink, s.reparent, s.selfc, s.ancc, dl, s.deathWithParent, lb, s.classes["disconnect-child"] > 0)
+	cl.Fingerprint = fmt.Sprintf("2nd=%v|reparent=%v|self=%v|anc=%v|deathlinks=%s|childdeath=%v|len=%s|disc=%v|db=%s|reopen=%v", s.secondLink, s.reparent, s.selfc, s.ancc, dl, s.deathWithParent, lb, s.classes["disconnect-child"] > 0, c.dbMode(), s.reopens > 0)
 	return cl
 }
